@@ -339,6 +339,13 @@ def report(ctx, pid, o, case, bis, tdiff, pfail, to_q, depth, cap, extra_tags=()
             mp, mq = o["P"].quality_metrics, o["Q"].quality_metrics
             confirmed = True
             orc = {"kind": why, "orig_metric": str(mp), "reread_metric": str(mq)}
+            if bis - 100 in (6, 7) and io.only_undefined_reads(ctx, o):
+                # a cost / metric expression that reads a fluent without a value on one side only (`f(o) * 0` is
+                # written as `0`): undefined under the strict reading, folded away by the implementation (C01)
+                tags = tags + ["strict-undefined-read"]
+                payload["note"] = ("the metric values agree when every undefined ground fluent is given a value: one side's "
+                                   "cost / metric expression reads an undefined fluent that the other side's (constant-folded) "
+                                   "expression no longer contains")
         payload["simulator_oracle"] = orc
         if not confirmed and bis - 100 in (3, 4, 5) and io.only_undefined_reads(ctx, o):
             # under the documented strict semantics the two problems differ, the implementation's simulator (which
